@@ -50,6 +50,7 @@ func builtinRevision(set *appsv1.StatefulSet, revno int64) *appsv1.ControllerRev
 	data := builtinPatch(set)
 	hf := fnv.New32()
 	hf.Write(data)
+	hf.Write([]byte("0")) // upstream always hashes the collision count (0) along with the data
 	hash := utilrand.SafeEncodeString(fmt.Sprint(hf.Sum32()))
 	l := map[string]string{"controller.kubernetes.io/hash": hash}
 	for k, v := range set.Spec.Template.Labels {
